@@ -45,6 +45,9 @@ pub struct WCase {
 pub enum Api {
     ClientSend { c: usize, idx: u32, ch: u8, mode: u8 },
     ServerSend { c: usize, idx: u32, ch: u8, mode: u8, accepted: bool },
+    /// a zero-length Reliable packet (carries no identity; counted)
+    ClientSendEmpty { c: usize },
+    ServerSendEmpty { c: usize, accepted: bool },
     ClientDisconnect { c: usize, now: bool },
     ServerDisconnect { c: usize, now: bool },
     ServerDrop { c: usize },
@@ -109,8 +112,9 @@ pub fn wop_strategy(p: &ScriptParams) -> BoxedStrategy<WOp> {
     } else {
         prop_oneof![1 => Just(0u32), 10 => 1_000u32..40_000, 3 => 40_000u32..400_000, 1 => 400_000u32..2_500_000].boxed()
     };
-    let size = prop_oneof![6 => 5u16..100, 2 => 100u16..1500, 1 => 1500u16..6000];
-    let size2 = prop_oneof![6 => 5u16..100, 2 => 100u16..1500, 1 => 1500u16..6000];
+    // size 0 = a zero-length Reliable packet on channel 63
+    let size = prop_oneof![1 => Just(0u16), 6 => 5u16..100, 2 => 100u16..1500, 1 => 1500u16..6000];
+    let size2 = prop_oneof![1 => Just(0u16), 6 => 5u16..100, 2 => 100u16..1500, 1 => 1500u16..6000];
     prop_oneof![
         30 => (dt, prop_oneof![6 => Just(true), 1 => Just(false)], prop_oneof![6 => Just(255u8), 2 => any::<u8>()]).prop_map(|(dt_us, server, clients)| WOp::Tick { dt_us, server, clients }),
         p.send_weight => (0..nc, prop_oneof![3 => 0u8..3, 1 => 0u8..64], 0u8..4, size).prop_map(|(c, ch, mode, size)| WOp::ClientSend { c, ch, mode, size }),
@@ -199,22 +203,34 @@ pub fn run_script(c: &WCase) -> WorldLog {
             WOp::ClientSend { c: k, ch, mode, size } => {
                 let k = *k as usize % n;
                 if let Some(i) = ci[k] {
-                    let idx = c_idx[k];
-                    c_idx[k] += 1;
-                    let s = w.next_ev();
-                    api.push((s, w.now_us, Api::ClientSend { c: k, idx, ch: *ch % 64, mode: *mode % 4 }));
-                    w.client_send(i, world_payload(c.seed, k as u8, idx, *size as usize), *ch, *mode);
+                    if *size == 0 {
+                        let s = w.next_ev();
+                        api.push((s, w.now_us, Api::ClientSendEmpty { c: k }));
+                        w.client_send(i, Vec::new(), 63, 3);
+                    } else {
+                        let idx = c_idx[k];
+                        c_idx[k] += 1;
+                        let s = w.next_ev();
+                        api.push((s, w.now_us, Api::ClientSend { c: k, idx, ch: *ch % 64, mode: *mode % 4 }));
+                        w.client_send(i, world_payload(c.seed, k as u8, idx, *size as usize), *ch, *mode);
+                    }
                 }
             }
             WOp::ServerSend { c: k, ch, mode, size } => {
                 let k = *k as usize % n;
                 if let Some(i) = ci[k] {
-                    let idx = s_idx[k];
-                    s_idx[k] += 1;
                     let active = w.server_client_active(&w.clients[i].addr);
-                    let s = w.next_ev();
-                    let accepted = w.server_send(i, world_payload(c.seed, STREAM_S2C + k as u8, idx, *size as usize), *ch, *mode) && active;
-                    api.push((s, w.now_us, Api::ServerSend { c: k, idx, ch: *ch % 64, mode: *mode % 4, accepted }));
+                    if *size == 0 {
+                        let s = w.next_ev();
+                        let accepted = w.server_send(i, Vec::new(), 63, 3) && active;
+                        api.push((s, w.now_us, Api::ServerSendEmpty { c: k, accepted }));
+                    } else {
+                        let idx = s_idx[k];
+                        s_idx[k] += 1;
+                        let s = w.next_ev();
+                        let accepted = w.server_send(i, world_payload(c.seed, STREAM_S2C + k as u8, idx, *size as usize), *ch, *mode) && active;
+                        api.push((s, w.now_us, Api::ServerSend { c: k, idx, ch: *ch % 64, mode: *mode % 4, accepted }));
+                    }
                 }
             }
             WOp::ClientDisconnect { c: k, now } => {
